@@ -208,7 +208,19 @@ def wl_history(ctx, rng, case, force_width=None):
             ctx.count("query_type_toggles")
         else:
             case.op("reload")
-            s2 = cls.frombytes(bytes(s), **bl.kw_hash(hf))
+            if rng.random() < 0.5:
+                s2 = cls.frombytes(bytes(s), **bl.kw_hash(hf))
+            else:
+                # a checkpoint FILE (every third scratch path already holds a longer file of something else): the history goes on with what
+                # is loaded back from it
+                sc = bl.Scratch(ctx, case)
+                try:
+                    p = sc.path("checkpoint")
+                    s.export(p)
+                    s2 = cls(filepath=p, **bl.kw_hash(hf))
+                finally:
+                    sc.cleanup()
+                ctx.count("reloads_through_a_checkpoint_file")
             s2.query_type = "min"
             s = s2
             k, ret = None, None
